@@ -135,6 +135,17 @@ func holeMatrix(add func(id, code string, prims bool)) {
 			add("s_"+h.id+"_"+k.id, preS+fill(h.code, e), false)
 		}
 	}
+	// struct-to-interface conversions: the converted argument in every operand kind x the call in every context
+	preI := "cv := &NCanvas{sq: NSquare{side: x % 1000}, scale: 2}\nq := NSquare{side: y % 1000}\npsq := &NSquare{side: y % 999}\nsqs := make([]NSquare, 1)\nsqs[0] = NSquare{side: 5}\n_ = cv\n_ = q\n_ = psq\n_ = sqs\n"
+	ki := []kv{{"ident", "q"}, {"field", "cv.sq"}, {"literal", "NSquare{side: y % 1000}"}, {"call", "mkNSq(x)"}, {"index", "sqs[0]"}, {"deref", "*psq"}}
+	hi := []kv{{"letbound", "a1 := nmeasure($)\nr = a1"}, {"assign", "r = nmeasure($)"}, {"operand", "r = nmeasure($) + 1"}, {"operand_r", "r = 1000000 - nmeasure($)"},
+		{"callarg", "r = addBoth(nmeasure($), 2)"}, {"cond", "if nmeasure($) > 3 {\n\tr = 1\n}"}, {"closure_ret", "fn := func() uint64 {\n\treturn nmeasure($)\n}\nr = fn()"},
+		{"stmt", "nmeasure($)\nr = 1"}, {"store_field", "sp.g = nmeasure($)"}}
+	for _, h := range hi {
+		for _, k := range ki {
+			add("i_"+h.id+"_"+k.id, preI+fill(h.code, k.code), false)
+		}
+	}
 	add("s_index_base_field", preS+"r = sw.items[1]", false)
 	add("s_index_base_deref", preS+"r = (*pxs)[1]", false)
 	preB := "var vb bool = t\n_ = vb\n"
